@@ -23,3 +23,38 @@ Lemma resolver_publishes_gen : forall xs evs c sh,
   (Z.of_nat (length (c_view c)) <= gen_subsetSize -> forall v, registered (truth evs) v -> In v pub) /\
   (gen_subsetSize < Z.of_nat (length (c_view c)) -> Z.of_nat (length pub) = gen_subsetSize).
 Proof. intros xs evs c sh. apply resolver_publishes. apply subsetSize_nonneg. Qed.
+
+(* ------------------------------------------------------------------ kube: OnAdd replaces *)
+(* the source today (repair 435b2c7): EventHandler.OnAdd replaces the endpoint set like
+   Update.  If OnAdd goes back to merging, this obligation breaks (and the correspondence
+   shows the stale address). *)
+Lemma kubeOnAddReplaces_today : gen_kubeOnAddReplaces = true.
+Proof. reflexivity. Qed.
+
+(* informer-ordered histories with NO condition on OnAdd: the added object may have lost
+   addresses since the last Update / OnUpdate *)
+Definition kwf_free (t : list Z) (e : kev) : Prop :=
+  match e with
+  | KAdd _ => True
+  | _ => kwf t e
+  end.
+
+Fixpoint kwf_free_run (t : list Z) (l : list kev) : Prop :=
+  match l with
+  | [] => True
+  | e :: l' => kwf_free t e /\ kwf_free_run (ktruth_step t e) l'
+  end.
+
+Lemma kwf_free_run_kwf : forall l t, kwf_free_run t l -> kwf_run t l.
+Proof.
+  induction l as [|e l IH]; intros t H; [exact I|].
+  destruct H as [He Hl]. split; [|apply IH; exact Hl].
+  destruct e; try exact He. left. exact kubeOnAddReplaces_today.
+Qed.
+
+Lemma kube_exact_free : forall l, kwf_free_run [] l ->
+  let s := krun kinit l in
+  NoDup (klast s) /\
+  (forall ip, In ip (klast s) <-> In ip (ktruth l)) /\
+  (forall ip, In ip (kend s) <-> In ip (ktruth l)).
+Proof. intros l H. apply kube_exact. apply kwf_free_run_kwf. exact H. Qed.
